@@ -127,6 +127,56 @@ func referenced(s *Schema, t *Table) map[string]bool {
 	return r
 }
 
+// csBits: the ChangeCharset / ChangeCollate flags required when column f (of a table with the
+// profile's charset and collation) gets the charset / collation attributes tcs / tco ("" = none).
+func csBits(p *profile, f Col, tcs, tco string) int {
+	v := p.variant
+	switch {
+	case tco != "" && tcs == "":
+		if x, ok := v.charsetOf(tco); ok {
+			tcs = x
+		}
+	case tcs != "" && tco == "":
+		if x, ok := v.defCollation(tcs); ok {
+			tco = x
+		}
+	}
+	fcs, fco := "", ""
+	if f.Charset != nil {
+		fcs = *f.Charset
+	}
+	if f.Collation != nil {
+		fco = *f.Collation
+	}
+	eff := func(own, top string) string {
+		if own != "" {
+			return own
+		}
+		return top
+	}
+	bits := 0
+	if eff(fcs, p.tblCS) != eff(tcs, p.tblCS) {
+		bits |= kCharset
+	}
+	if eff(fco, p.tblCO) != eff(tco, p.tblCO) {
+		bits |= kCollate
+	}
+	return bits
+}
+
+func swapCase(s string) string {
+	b := []byte(s)
+	for i, c := range b {
+		switch {
+		case 'a' <= c && c <= 'z':
+			b[i] = c - 32
+		case 'A' <= c && c <= 'Z':
+			b[i] = c + 32
+		}
+	}
+	return string(b)
+}
+
 func isStringKey(k string) bool {
 	return strings.Contains(k, "char") || strings.Contains(k, "text")
 }
@@ -172,6 +222,24 @@ func catalogue(p *profile, s Schema) []Edit {
 					referencedByOther = true
 				}
 			}
+		}
+		selfRef := false
+		for _, f := range t.FKs {
+			if f.RefTable == tn {
+				selfRef = true
+			}
+		}
+		if p.dialect == "mysql" && !referencedByOther && !selfRef {
+			// lower_case_table_names: 0 = names are compared as written (another table), 1/2 = case-insensitively (the same table)
+			nn := swapCase(tn)
+			e := Edit{Kind: "table-case", Desc: "table " + tn + " written " + nn, Keys: []string{needT, "T:" + nn}, Drops: []string{needT}, Sig: "table-case(" + tn + ")",
+				Apply: func(s *Schema) { s.table(tn).Name = nn }}
+			if p.variant.lcnames == 0 {
+				e.Exp = []string{"-T(" + tn + ")", "+T(" + nn + ")"}
+			} else {
+				e.NonEdit = true
+			}
+			add(e)
 		}
 		if !referencedByOther {
 			add(Edit{Kind: "drop-table", Desc: "drop table " + tn, Keys: []string{needT}, Drops: []string{needT},
@@ -235,6 +303,14 @@ func catalogue(p *profile, s Schema) []Edit {
 					if !c.Def.Raw {
 						add(colEdit("col-default", cn, "["+c.Type+"] default "+c.Def.V+" -> expr "+dr.V, kDefault, func(c *Col) { d := dr; c.Def = &d }))
 					}
+					if !c.Def.Raw && p.dialect != "postgres" && tn == "quote_defaults" {
+						for _, qv := range quoteDefs {
+							qv := qv
+							if qv != c.Def.V {
+								add(colEdit("col-default-quote", cn, "["+c.Type+"] default "+c.Def.V+" -> "+qv, kDefault, func(c *Col) { d := Def{V: qv}; c.Def = &d }))
+							}
+						}
+					}
 				}
 			}
 			cbits := kComment
@@ -264,14 +340,51 @@ func catalogue(p *profile, s Schema) []Edit {
 				add(colEdit("col-generated", cn, "make generated", kGen, func(c *Col) { c.Gen = &Gen{Expr: "(1)", Type: "STORED"} }))
 			}
 			if p.charset && isStringKey(c.Type) {
-				if c.Charset == nil {
-					add(colEdit("col-charset", cn, "set charset latin1", kCharset|kCollate, func(c *Col) { c.Charset, c.Collation = sp("latin1"), sp("latin1_swedish_ci") }))
-					add(colEdit("col-charset-same", cn, "spell out the table's charset", 0, func(c *Col) { c.Charset, c.Collation = sp("utf8mb4"), sp("utf8mb4_0900_ai_ci") }))
-					add(colEdit("col-charset", cn, "set collation utf8mb4_bin", kCollate, func(c *Col) { c.Charset, c.Collation = sp("utf8mb4"), sp("utf8mb4_bin") }))
-				} else {
-					add(colEdit("col-charset", cn, "drop column charset", kCharset|kCollate, func(c *Col) { c.Charset, c.Collation = nil, nil }))
-					add(colEdit("col-charset", cn, "collation -> latin1_bin", kCollate, func(c *Col) { c.Collation = sp("latin1_bin") }))
-					add(colEdit("col-charset", cn, "charset -> utf8mb4/utf8mb4_bin", kCharset|kCollate, func(c *Col) { c.Charset, c.Collation = sp("utf8mb4"), sp("utf8mb4_bin") }))
+				// target states of the column's charset / collation ("" = attribute absent).  The required
+				// flags compare the *effective* values (own, else the table's) after the differ's version
+				// filled in the default collation of a lone charset / the charset of a lone collation
+				// (csBits, from the tables of the server variant -- fakemy.go).
+				type target struct{ desc, cs, co string }
+				own := func(x *string) string {
+					if x == nil {
+						return ""
+					}
+					return *x
+				}
+				targets := []target{
+					{"set charset latin1", "latin1", "latin1_swedish_ci"},
+					{"spell out the table's charset", p.tblCS, p.tblCO},
+					{"charset -> utf8mb4/utf8mb4_bin", "utf8mb4", "utf8mb4_bin"},
+					{"drop column charset", "", ""},
+					{"charset/collation -> latin1/latin1_bin", "latin1", "latin1_bin"},
+				}
+				if tn == "users" || tn == "posts" || tn == "cs" {
+					for _, x := range []string{"utf8mb4", "latin1", "ascii", "klingon"} {
+						targets = append(targets, target{"charset " + x + " alone (no collation)", x, ""})
+					}
+					for _, y := range []string{"utf8mb4_bin", "utf8mb4_general_ci", "utf8mb4_0900_ai_ci", "latin1_bin", "latin1_swedish_ci", "ascii_bin", "utf8mb4_uca1400_ai_ci", "zz_unknown_ci"} {
+						targets = append(targets, target{"collation " + y + " alone (no charset)", "", y})
+					}
+				}
+				for _, tg := range targets {
+					tg := tg
+					if tg.cs == own(c.Charset) && tg.co == own(c.Collation) {
+						continue
+					}
+					bits := csBits(p, c, tg.cs, tg.co)
+					kind := "col-charset"
+					if bits == 0 {
+						kind = "col-charset-same"
+					}
+					add(colEdit(kind, cn, tg.desc, bits, func(c *Col) {
+						c.Charset, c.Collation = nil, nil
+						if tg.cs != "" {
+							c.Charset = sp(tg.cs)
+						}
+						if tg.co != "" {
+							c.Collation = sp(tg.co)
+						}
+					}))
 				}
 			}
 			if p.identity && isIntKey(c.Type) && c.Gen == nil {
@@ -698,6 +811,16 @@ func catalogue(p *profile, s Schema) []Edit {
 		if out[i].Sig == "" {
 			out[i].Sig = out[i].Kind
 		}
+	}
+	if p.dialect == "mysql" && !p.variant.check {
+		// a server without CHECK constraints: TableAttrDiff fails when the desired table has one (cases of their own, tie only)
+		var l []Edit
+		for _, e := range out {
+			if !strings.Contains(e.Kind, "check") {
+				l = append(l, e)
+			}
+		}
+		out = l
 	}
 	return out
 }
